@@ -232,17 +232,16 @@ structure Compiled where
   feats : List Nat      -- iff->features (ids given by `lookup`)
   deriving Repr, DecidableEq
 
-/-- `lys_compile_iffeature`. `lookup` abstracts `lysp_feature_find(qname->mod, name, len, 1)`; `ver11` = the
-module's `yang-version` is 1.1. -/
-def compile (lookup : Bytes → Option Nat) (ver11 : Bool) (c : Bytes) : Except Err Compiled :=
-  match run1 (lex1 false c) {} with
+/-- `lys_compile_iffeature` after lexing: `t1` = what pass 1 sees, `t2` = what pass 2 sees (right to left). -/
+def compileToks (lookup : Bytes → Option Nat) (ver11 : Bool) (t1 : List T1) (t2 : List T2) : Except Err Compiled :=
+  match run1 t1 {} with
   | .error e => .error e
   | .ok s1 =>
     if s1.j ≠ 0 then .error .parens
     else if s1.fExp ≠ s1.fSize then .error .count
     else if (s1.cv || decide (s1.exprSize > 1)) && !ver11 then .error .version
     else
-      match run2 lookup s1.exprSize s1.fSize (lex2 c.reverse none false) {} with
+      match run2 lookup s1.exprSize s1.fSize t2 {} with
       | .error e => .error e
       | .ok s2 =>
         match popAll s1.exprSize s2.stack s2 with
@@ -250,6 +249,11 @@ def compile (lookup : Bytes → Option Nat) (ver11 : Bool) (c : Bytes) : Except 
         | .ok s3 =>
           if s3.out.length ≠ s1.exprSize ∨ s3.feats.length ≠ s1.fSize then .error .internal
           else .ok { size := s1.exprSize, expr := packFrom 0 s3.out (List.replicate (nbytes s1.exprSize) 0), feats := s3.feats }
+
+/-- `lys_compile_iffeature`. `lookup` abstracts `lysp_feature_find(qname->mod, name, len, 1)`; `ver11` = the
+module's `yang-version` is 1.1. -/
+def compile (lookup : Bytes → Option Nat) (ver11 : Bool) (c : Bytes) : Except Err Compiled :=
+  compileToks lookup ver11 (lex1 false c) (lex2 c.reverse none false)
 
 /-! ## evaluation -/
 
